@@ -10,9 +10,13 @@ EPS = ""
 
 
 def state_names(rng, n, alphabet, kind=None):
-    kind = kind or rng.choice(["int", "int", "str", "symbol", "tuple"])
+    kind = kind or rng.choice(["int", "int", "str", "symbol", "tuple", "int1", "sparse"])
     if kind == "int":
         return list(range(n))
+    if kind == "int1":
+        return list(range(1, n + 1))  # 1-based
+    if kind == "sparse":
+        return sorted(rng.sample(range(0, 3 * n + 4), n))  # sparse, may collide with 0..n-1 of another operand
     if kind == "str":
         return [f"s{i}" for i in range(n)]
     if kind == "tuple":
@@ -195,7 +199,10 @@ def gen_fst(rng, max_states=4, A=None, B=None, peps=0.3, max_arcs=7):
         scaled.append([i, ab, j, Fr(w, k)])
     start = {rng.randrange(n): Fr(rng.randint(1, 4), 4) for _ in range(rng.randint(1, 2))}
     stop = {rng.randrange(n): Fr(rng.randint(1, 4), 4) for _ in range(rng.randint(1, 2))}
-    return {"n": n, "names": state_names(rng, n, A, rng.choice(["int", "str", "tuple"])), "A": A, "B": B,
+    return {"n": n, "names": state_names(rng, n, A, rng.choice(["int", "str", "tuple", "int1", "sparse"])), "A": A, "B": B,
+            # how the library object is assembled: add_arc (default), set_arc for the first arc of a label, or as the
+            # union (+) of two halves
+            "build": rng.choice(["add", "add", "set", "union"]),
             "start": sorted([i, w] for i, w in start.items()), "stop": sorted([i, w] for i, w in stop.items()), "arcs": scaled}
 
 
